@@ -132,7 +132,7 @@ def run(ctx):
         probes.append({"r": r, "t": tr * r, "h": rng.choice([10.0, 30.0]), "nr": nr, "nt": nt, "nz": nz, "dim": dim, "T0": 0.0,
                        "times": [0.0, 1.0], "temps": None, "pressure": [0.0, 1.0], "dtop": [0.0, 0.0],
                        "material": {"kind": "elastic", "E": 1.5e5, "nu": 0.3, "alpha_T": [0.0], "alpha_v": [1.5e-5]},
-                       "probe": ["pressure_load", "mesh"], "stop_at": 0, "want": []})
+                       "probe": ["pressure_load", "mesh", "volumes"], "stop_at": 0, "want": []})
     pres = run_impl_parallel("struct_run", [to_impl(c, i) for i, c in enumerate(probes)], workers=12, timeout=900)
     terms, owner = [], []
     for i, (c, r) in enumerate(zip(probes, pres)):
@@ -152,6 +152,15 @@ def run(ctx):
             owner.append((i, "the element connectivity differs from the cell table of the (r, theta, z) grid"))
         elif conn != [[k, k + 1] for k in range(c["nr"] - 1)]:
             findings.append((c, "1D connectivity is not the chain of radial nodes"))
+        # the element volumes the damage models use are the cell measures of this mesh, element by element
+        ev, dx = arr(r["element_volumes"]), arr(r["dx"]).sum(axis=1)
+        if c["dim"] == 1:
+            dx = (arr(r["rq"]) * arr(r["dx"]) * 2 * math.pi).sum(axis=1) * c["h"]
+        elif c["dim"] == 2:
+            dx = dx * c["h"]
+        if ev.shape != dx.shape or not np.allclose(ev, dx, rtol=1e-10, atol=0):
+            findings.append((c, "Tube.element_volumes differs from the measures of the mesh cells (largest relative gap %g)"
+                             % (float(np.max(np.abs(ev - dx) / dx)) if ev.shape == dx.shape else float("nan"))))
         # pressure load
         pl = r["pressure_load"]
         F = arr(pl["force"])
